@@ -813,6 +813,63 @@ func c17RunComp(ctx *Ctx, c c17CompCase) {
 	}
 }
 
+// --- a custom function under the name of an experimental one ------------------------------
+
+type c17ExpNameCase struct {
+	First string `json:"first"` // which option comes first: custom | experimental
+	Call  string `json:"call"`
+}
+
+func c17EnumExpName(yield func(c17ExpNameCase)) {
+	for _, f := range []string{"custom", "experimental"} {
+		for _, call := range []string{"'a'.join(',')", "%strs.join('-')", "Patient.name.select(given.join('+'))", "'a'.join()"} {
+			yield(c17ExpNameCase{First: f, Call: call})
+		}
+	}
+}
+
+func c17RunExpName(ctx *Ctx, c c17ExpNameCase) {
+	calls := 0
+	mine := func(in system.Collection, sep system.String) (system.Collection, error) {
+		calls++
+		return system.Collection{system.String("custom:" + string(sep))}, nil
+	}
+	opts := []fhirpath.CompileOption{compopts.AddFunction("join", mine), compopts.WithExperimentalFuncs()}
+	if c.First == "experimental" {
+		opts[0], opts[1] = opts[1], opts[0]
+	}
+	ctx.Eval(c.First+"|"+c.Call, true, "stage:experimental-name")
+	var e *fhirpath.Expression
+	var cerr error
+	g := guard(func() { e, cerr = fhirpath.Compile(c.Call, opts...) })
+	desc := fmt.Sprintf("AddFunction(\"join\") %s WithExperimentalFuncs, %s → compile err=%v", map[string]string{"custom": "before", "experimental": "after"}[c.First], c.Call, cerr)
+	if g.Panic != "" {
+		ctx.Fail("functions: Compile panics: "+g.Panic, desc)
+		return
+	}
+	if cerr != nil {
+		return // rejected (existing name, or the custom function's fixed argument count): conforming
+	}
+	// accepted: then it is the custom function that the name denotes
+	var coll system.Collection
+	var err error
+	g = guard(func() {
+		coll, err = e.Evaluate(fixtureInput(fixturePatient()), evalopts.EnvVariable("strs", system.Collection{system.String("x"), system.String("y")}))
+	})
+	desc += fmt.Sprintf(" ; evaluate → %s err=%v calls=%d", clip(renderColl(coll), 200), err, calls)
+	if g.Panic != "" {
+		ctx.Fail("functions: Evaluate panics: "+g.Panic, desc)
+		return
+	}
+	if strings.HasSuffix(c.Call, ".join()") {
+		ctx.Fail("functions: a call with a wrong argument count for the accepted custom function compiles", desc)
+		return
+	}
+	if err != nil || calls == 0 || len(coll) == 0 || !strings.HasPrefix(renderItem(coll[0]), "String:\"custom:") {
+		ctx.Fail("functions: a custom function accepted under the name of an experimental function is not the one invoked", desc)
+	}
+}
+
 func TestC17(t *testing.T) {
 	r := newRec("C17",
 		"evaluate-option cases: lists of 0..4 EnvVariable options (+ optionally OverrideTime) over {System value, element, resource, collection, empty collection, nested collection, duplicate name, predefined name context/ucum, unsupported Go int/string/struct/nil, unsupported value nested one and two levels inside collections, generated collection shapes (1..5 items per level, ≤ 3 levels, supported and unsupported items at any position)} in drawn order, with a program that references one of the variables at the root, inside select/where criteria, inside a custom-function argument, or %context/%ucum/%nope; instrumented custom functions count invocations and record input and arguments; an enumeration stage covers all orders of all lists of length ≤ 2 (quick) / ≤ 3 (thorough) over 12 option kinds.  compile-option cases: four well-typed functions plus 0..4 of {good 0/1/2-ary, proto-typed, wrong first parameter, wrong results, non-function, no parameters, variadic, built-in name, duplicate name} in rotated order × 15 call shapes (right/wrong argument types and counts, call sites at the root, in select, in where) × {returns collection, returns wrapped sentinel error, returns empty}.  non-trivial = ≥ 2 options with an invalid one among valid ones, or a variable referenced below the root, or a custom function call; distinct = FNV-64 of (options, program).  Nested-call cases: generated call trees (depth ≤ 4) over three pure custom functions of 1, 2 and 3 Integer parameters, at the root or once per item inside select(), evaluated twice: the result must equal the harness-side evaluation of the same tree.  Unknown-variable cases: %nope placed in every context that must evaluate it (either side of every operator, receiver and each argument of every implemented table function with well-typed other operands, criteria over a non-empty receiver, the taken iif branch), alone and nested 2..3 deep: Evaluate must return an error; the same programs with the variable supplied are control runs; counters unknown_variable_context_discriminates / _fails_anyway say in how many contexts an empty value in the hole evaluates without error (only there can a swallowed error be told apart)",
@@ -822,6 +879,7 @@ func TestC17(t *testing.T) {
 		Stage[c17EvalCase]{Name: "variables", Gen: c17GenEval, Run: c17RunEval, N: pick(18000, 150000)},
 		Stage[c17FnCase]{Name: "functions", Gen: c17GenFn, Run: c17RunFn, N: pick(18000, 150000)},
 		Stage[c17CompCase]{Name: "nested-custom-calls", Gen: c17GenComp, Run: c17RunComp, N: pick(6000, 100000)},
+		Stage[c17ExpNameCase]{Name: "experimental-name", Enum: c17EnumExpName, Run: c17RunExpName},
 		Stage[c17UnkCase]{Name: "unknown-variable-contexts", Enum: c17EnumUnk, Run: c17RunUnk},
 		Stage[c17UnkCase]{Name: "unknown-variable-nested", Gen: c17GenUnk, Run: c17RunUnk, N: pick(9000, 60000)},
 	)
